@@ -414,6 +414,10 @@ def extra_checks(exe, rng, tier):
            "certificate_points": len(keys), "functions_certified": len([n for n in per_fn if per_fn[n] > 0 and not n.startswith("const")]),
            "certificates_per_function": per_fn, "certificate_tolerance": "1e-9*max(1,|component|)", "interval_precision_bits": 70,
            "cert_procs": CERT_PROCS}
+    # the certificates are this property's correspondence check: report them under the engine's tie keys as well
+    cov["traces_validated_against_impl"] = n_ok
+    cov["correspondence"] = {"compared": nid, "same": 0, "close": n_ok, "differ": len(fails),
+                             "comparator": "interval: |model value over R - f64 answer| <= 1e-9*max(1,|component|), kernel-checked"}
     cov.update(_cov)
     return events, cov
 
